@@ -209,6 +209,27 @@ def run_once(scn, ri, db, emit, seq_cfg=None):
             iod.ingest_data_into_dataholder(config)
             line("end")
             return
+        if run.get("phases"):
+            # direct use of the public data-holder interface, one object throughout: ingest, stream, ingest more,
+            # stream again (every stream is sequenced the way otel_to_pv does it)
+            from tel2puml.otel_to_pv.sequence_otel import sequence_otel_job_id_streams
+            holder = iod.fetch_data_holder(config)
+            for k, spans in enumerate(run["phases"]):
+                if k:
+                    line("reenter")
+                with holder:
+                    for sp in spans:
+                        holder.save_data(to_event(sp))
+                pv = []
+                for name, job_streams in holder.stream_data(None):
+                    for stream in sequence_otel_job_id_streams(job_streams, async_flag=False):
+                        pv.append({"name": name, "evs": [
+                            {"eid": e["eventId"], "ty": e["eventType"], "job": e["jobId"], "jname": e["jobName"],
+                             "app": e["applicationName"], "ts": e["timestamp"],
+                             "prev": sorted(e.get("previousEventIds", []))} for e in stream]})
+                line("stream", outseq=state.get("outseq", []), pv=pv)
+            line("end")
+            return
         outdir = None
         if run.get("se"):
             outdir = db + ".out%d" % ri
